@@ -618,7 +618,9 @@ func c05Ued(c Case) interface{} {
 }
 
 func genUedCase(g *Gen) Case {
-	pool := []string{"app-a/foo", "dev-b/bar", "sys-c/baz", ">=app-a/qux-1.0", "sys-c/lib:2"}
+	// several atoms for one package (another slot, a version bound, a blocker): each is an entry of its own
+	pool := []string{"app-a/foo", "dev-b/bar", "sys-c/baz", ">=app-a/qux-1.0", "sys-c/lib:2", "sys-c/lib:3",
+		"app-a/foo:1", ">=app-a/foo-2", "!dev-b/bar", "<app-a/qux-3"}
 	steps := []interface{}{}
 	for k := 2 + g.Intn(8); k > 0; k-- {
 		op := "add"
